@@ -74,6 +74,9 @@ func NewServer(id string, opts ...ServerOption) *Server {
 		opt.apply(&srv)
 	}
 
+	chainUnaryInterceptors(&srv)
+	chainStreamInterceptors(&srv)
+
 	return &srv
 }
 
@@ -94,6 +97,8 @@ type Server struct {
 
 	unaryInterceptor  grpc.UnaryServerInterceptor
 	streamInterceptor grpc.StreamServerInterceptor
+	chainUnaryInts    []grpc.UnaryServerInterceptor
+	chainStreamInts   []grpc.StreamServerInterceptor
 	statsHandlers     []stats.Handler
 }
 
